@@ -74,6 +74,55 @@ u64 __verif_fshl64(u64 a, u64 b, u64 c) { c &= 63; return c ? (a << c) | (b >> (
 u32 __verif_fshr32(u32 a, u32 b, u32 c) { c &= 31; return c ? (a << (32 - c)) | (b >> c) : b; }
 u64 __verif_fshr64(u64 a, u64 b, u64 c) { c &= 63; return c ? (a << (64 - c)) | (b >> c) : b; }
 
+/* ---- memoising arithmetic: exact (the memoised value IS a*b resp. a/b), only the circuit is shared ---- */
+int __verif_memo_miss = 0;
+#ifdef __CPROVER__
+#define MEMO_SLOTS 2
+static u64 mm_a[MEMO_SLOTS], mm_b[MEMO_SLOTS], mm_p[MEMO_SLOTS]; static int mm_n = 0;
+u64 __verif_mul64(u64 a, u64 b) {
+  for (int i = 0; i < MEMO_SLOTS; i++)
+    if (i < mm_n && ((a == mm_a[i] && b == mm_b[i]) || (a == mm_b[i] && b == mm_a[i]))) return mm_p[i];
+  if (mm_n < MEMO_SLOTS) { mm_a[mm_n] = a; mm_b[mm_n] = b; mm_p[mm_n] = a * b; return mm_p[mm_n++]; }
+  __verif_memo_miss++;
+  return a * b;
+}
+static u32 m3_a[MEMO_SLOTS], m3_b[MEMO_SLOTS], m3_p[MEMO_SLOTS]; static int m3_n = 0;
+u32 __verif_mul32(u32 a, u32 b) {
+  for (int i = 0; i < MEMO_SLOTS; i++)
+    if (i < m3_n && ((a == m3_a[i] && b == m3_b[i]) || (a == m3_b[i] && b == m3_a[i]))) return m3_p[i];
+  if (m3_n < MEMO_SLOTS) { m3_a[m3_n] = a; m3_b[m3_n] = b; m3_p[m3_n] = a * b; return m3_p[m3_n++]; }
+  __verif_memo_miss++;
+  return a * b;
+}
+static u64 dm_a[MEMO_SLOTS], dm_b[MEMO_SLOTS], dm_q[MEMO_SLOTS], dm_r[MEMO_SLOTS]; static int dm_n = 0;
+static int divmemo(u64 a, u64 b) {
+  for (int i = 0; i < MEMO_SLOTS; i++) if (i < dm_n && a == dm_a[i] && b == dm_b[i]) return i;
+  if (dm_n < MEMO_SLOTS) { dm_a[dm_n] = a; dm_b[dm_n] = b; dm_q[dm_n] = a / b; dm_r[dm_n] = a - dm_q[dm_n] * b; return dm_n++; }
+  __verif_memo_miss++;
+  return -1;
+}
+u64 __verif_udiv64(u64 a, u64 b) { int i = divmemo(a, b); return i >= 0 ? dm_q[i] : a / b; }
+u64 __verif_urem64(u64 a, u64 b) { int i = divmemo(a, b); return i >= 0 ? dm_r[i] : a % b; }
+u32 __verif_udiv32(u32 a, u32 b) { return (u32)__verif_udiv64(a, b); }
+u32 __verif_urem32(u32 a, u32 b) { return (u32)__verif_urem64(a, b); }
+#else
+u64 __verif_mul64(u64 a, u64 b) { return a * b; }
+u32 __verif_mul32(u32 a, u32 b) { return a * b; }
+u64 __verif_udiv64(u64 a, u64 b) { return a / b; }
+u64 __verif_urem64(u64 a, u64 b) { return a % b; }
+u32 __verif_udiv32(u32 a, u32 b) { return a / b; }
+u32 __verif_urem32(u32 a, u32 b) { return a % b; }
+#endif
+
+float __verif_d2f(double x) {
+  if (x != x) { u64 b = __verif_bitcast(double, u64, x); u32 r = (u32)(b >> 32 & 0x80000000u) | 0x7FC00000u | (u32)((b >> 29) & 0x3FFFFF); return __verif_bitcast(u32, float, r); }
+  return (float)x;
+}
+double __verif_f2d(float x) {
+  if (x != x) { u32 b = __verif_bitcast(float, u32, x); u64 r = ((u64)(b & 0x80000000u) << 32) | 0x7FF8000000000000ULL | ((u64)(b & 0x3FFFFF) << 29); return __verif_bitcast(u64, double, r); }
+  return (double)x;
+}
+
 /* ---- libc models (ISO C semantics, bit exact) ---- */
 u8* ext_memchr(u8* p, u32 c, u64 n) { for (u64 i = 0; i < n; i++) if (p[i] == (u8)c) return p + i; return 0; }
 u32 ext_memcmp(u8* a, u8* b, u64 n) { for (u64 i = 0; i < n; i++) if (a[i] != b[i]) return a[i] < b[i] ? (u32)-1 : 1u; return 0; }
